@@ -4,6 +4,7 @@ import (
 	"bytes"
 	"context"
 	"fmt"
+	"os"
 	"os/exec"
 	"strings"
 	"sync"
@@ -217,6 +218,9 @@ func (v *Verifier) solveAll(x *Exec, obls []*Obligation, timeoutS int, stats *So
 				r = solve(o.Script, timeoutS, true)
 			}
 			o.Solver, o.Time, o.Output = r.solver, r.time, r.output
+			if strings.Contains(r.output, "(error ") && r.verdict == "unknown" {
+				fmt.Fprintf(os.Stderr, "gocv: solver error on %s: %s\n", o.Label, firstLine(r.output))
+			}
 			if o.ExpectSat {
 				switch r.verdict {
 				case "unsat":
@@ -305,4 +309,13 @@ func (v *Verifier) finish(x *Exec, res *FuncResult) {
 			o.Label = fmt.Sprintf("%s#%d", o.Label, seen[o.Label])
 		}
 	}
+}
+
+func firstLine(s string) string {
+	for _, l := range strings.Split(s, "\n") {
+		if strings.Contains(l, "(error") {
+			return l
+		}
+	}
+	return ""
 }
